@@ -32,7 +32,7 @@ REPLAY = VERIF / "replay"
 KNOWN = VERIF / "known_findings.json"
 PY = "/venv/bin/python"
 
-COQ_TIMEOUT = int(os.environ.get("VERIF_COQ_TIMEOUT", "1500"))
+COQ_TIMEOUT = int(os.environ.get("VERIF_COQ_TIMEOUT", "900"))
 
 BASE_TRUST = [
     "Coq 8.16.1 kernel (coqc full .vo build; vm_compute used for finite table checks and model evaluation; no native_compute)",
